@@ -483,6 +483,104 @@ func buildIntrinsics() map[string]intrinsic {
 		tag, _ := pvTag(a[0])
 		return e.ts.Bool(tag != "")
 	}
+	// scalar payloads: the term is kept as the payload; accessors check the tag like the real ones (panic otherwise)
+	const prPkg = "google.golang.org/protobuf/reflect/protoreflect."
+	for _, sc := range []struct{ ctor, tag string }{
+		{"ValueOfBool", "bool"}, {"ValueOfInt32", "int32"}, {"ValueOfInt64", "int64"},
+		{"ValueOfUint32", "uint32"}, {"ValueOfUint64", "uint64"}, {"ValueOfEnum", "enum"},
+	} {
+		tag := sc.tag
+		m[prPkg+sc.ctor] = func(e *Engine, fr *frame, a []value) value { return pv(e, tag, a[0]) }
+	}
+	scalarType := func(e *Engine, tag string) types.Type {
+		switch tag {
+		case "bool":
+			return types.Typ[types.Bool]
+		case "int32":
+			return types.Typ[types.Int32]
+		case "int64":
+			return types.Typ[types.Int64]
+		case "uint32":
+			return types.Typ[types.Uint32]
+		case "uint64":
+			return types.Typ[types.Uint64]
+		case "string":
+			return types.Typ[types.String]
+		case "enum":
+			if pk := e.prog.ImportedPackage("google.golang.org/protobuf/reflect/protoreflect"); pk != nil {
+				if t := pk.Type("EnumNumber"); t != nil {
+					return t.Type()
+				}
+			}
+		}
+		return nil
+	}
+	m[prPkg+"ValueOf"] = func(e *Engine, fr *frame, a []value) value {
+		itf, ok := a[0].(iface)
+		if !ok || itf.t == nil {
+			return structure{array{}, unsafePtr{}, unsafePtr{}, e.ts.Const(64, 0)}
+		}
+		for _, tag := range []string{"bool", "int32", "int64", "uint32", "uint64", "string", "enum"} {
+			if t := scalarType(e, tag); t != nil && types.Identical(t, itf.t) {
+				return pv(e, tag, itf.v)
+			}
+		}
+		if sl, ok := itf.t.Underlying().(*types.Slice); ok && types.Identical(sl.Elem(), types.Typ[types.Byte]) {
+			return pv(e, "bytes", itf.v)
+		}
+		e.unsupported("protoreflect.ValueOf on " + itf.t.String())
+		return nil
+	}
+	m["("+prPkg+"Value).Interface"] = func(e *Engine, fr *frame, a []value) value {
+		tag, p := pvTag(a[0])
+		if tag == "" {
+			return iface{}
+		}
+		if tag == "bytes" {
+			return iface{t: types.NewSlice(types.Typ[types.Byte]), v: p}
+		}
+		if t := scalarType(e, tag); t != nil {
+			return iface{t: t, v: p}
+		}
+		e.unsupported("protoreflect.Value.Interface on " + tag)
+		return nil
+	}
+	m["("+prPkg+"Value).Bool"] = func(e *Engine, fr *frame, a []value) value {
+		tag, p := pvTag(a[0])
+		if tag != "bool" {
+			e.goPanic("protoreflect: value is not bool")
+		}
+		return p
+	}
+	m["("+prPkg+"Value).Int"] = func(e *Engine, fr *frame, a []value) value {
+		tag, p := pvTag(a[0])
+		switch tag {
+		case "int32":
+			return e.ts.SExt(p.(*Term), 64)
+		case "int64":
+			return p
+		}
+		e.goPanic("protoreflect: value is not int")
+		return nil
+	}
+	m["("+prPkg+"Value).Uint"] = func(e *Engine, fr *frame, a []value) value {
+		tag, p := pvTag(a[0])
+		switch tag {
+		case "uint32":
+			return e.ts.ZExt(p.(*Term), 64)
+		case "uint64":
+			return p
+		}
+		e.goPanic("protoreflect: value is not uint")
+		return nil
+	}
+	m["("+prPkg+"Value).Enum"] = func(e *Engine, fr *frame, a []value) value {
+		tag, p := pvTag(a[0])
+		if tag != "enum" {
+			e.goPanic("protoreflect: value is not enum")
+		}
+		return p
+	}
 
 	// ---- time ----
 	m["time.Now"] = func(e *Engine, fr *frame, a []value) value {
